@@ -101,4 +101,3 @@ func readLines(path string, fn func(line []byte) error) error {
 	}
 	return sc.Err()
 }
-
